@@ -3778,9 +3778,10 @@ class Shape(SVGElement, GraphicObject, Transformable):
         """
         if segments is None:
             segments = self.segments(False)
-        if self._length is not None:
-            return
+        if self._length is not None and getattr(self, "_length_error", error) <= error:
+            return  # cached lengths are at least as precise as requested.
         lengths = [each.length(error=error, min_depth=min_depth) for each in segments]
+        self._length_error = error
         self._length = sum(lengths)
         if self._length == 0:
             self._lengths = lengths
